@@ -61,6 +61,12 @@ MetasFor(c) ==
      \cup { [t |-> t, form |-> "list", val |-> NoVal, uns |-> u, params |-> <<p>>, ty |-> "-"] : t \in ts \ {"Into"}, u \in unsSet, p \in SingleParams }
      \cup { [t |-> t, form |-> "list", val |-> NoVal, uns |-> "no", params |-> <<CanonParam(a), CanonParam(b)>>, ty |-> "-"] :
               t \in ts \ {"Into"}, a \in ParamNames, b \in ParamNames }
+     \* the same parameter twice where the first occurrence says "false" (a reset check that looks at the value
+     \* instead of at "was it given" lets this one through), in both orders
+     \cup { [t |-> t, form |-> "list", val |-> NoVal, uns |-> "no", params |-> <<[name |-> a, form |-> "nv", val |-> "bool_f"], CanonParam(a)>>, ty |-> "-"] :
+              t \in ts \ {"Into"}, a \in ParamNames }
+     \cup { [t |-> t, form |-> "list", val |-> NoVal, uns |-> "no", params |-> <<[name |-> a, form |-> "list", val |-> "bool_f"], [name |-> a, form |-> "nv", val |-> "bool_f"]>>, ty |-> "-"] :
+              t \in ts \ {"Into"}, a \in ParamNames }
      \cup (IF c.pos = "type"
            THEN { [t |-> t, form |-> "list", val |-> NoVal, uns |-> "later", params |-> <<CanonParam(a)>>, ty |-> "-"] : t \in ts \ {"Into"}, a \in {"name", "bound"} }
            ELSE {})
